@@ -41,27 +41,31 @@ Proof.
   unfold sum_rec_len in *. cbn [fold_right]. specialize (IH F'). lia.
 Qed.
 
-Lemma create_msg_ok_shape s o q t b :
-  Inv s -> create_msg s o q t = Ok b ->
+Lemma create_msg_ok_shape_m s o q t b :
+  InvM s -> create_msg s o q t = Ok b ->
   b = msg_hdr o q t (16 + s_len s) ++ s_hdr s ++ List.concat (map buf_of (s_recs s)) /\
   blen b = 16 + s_len s /\ 16 + s_len s <= 65535.
 Proof.
   intros HI H. pose proof (create_msg_ok_buffers _ _ _ _ _ H) as AB.
-  rewrite (create_msg_spec s o q t HI AB) in H.
+  rewrite (create_msg_spec_m s o q t HI AB) in H.
   change msg_hdr_len with 16 in H. change max_msg with 65535 in H.
   destruct (N.ltb_spec 65535 (16 + s_len s)); [discriminate|].
   assert (b = msg_hdr o q t (16 + s_len s) ++ s_hdr s ++ List.concat (map buf_of (s_recs s))) as -> by (unfold msg_hdr; congruence).
   split; [reflexivity|]. split; [|assumption].
-  pose proof HI as (H4 & HL & HG).
+  pose proof HI as (H4 & HL).
   assert (BL : blen (List.concat (map buf_of (s_recs s))) = sum_rec_len (s_recs s)).
   { apply blen_concat_bufs'. apply Forall_forall. intros r Hr.
-    assert (G : good_rec r). { rewrite s_recs_rev in Hr. rewrite Forall_forall in HG. apply HG. now apply in_rev. }
-    pose proof (good_rec_buffer r G) as S.
+    pose proof (rec_buffer_len r) as S.
     unfold all_buffers_ok in AB. rewrite Forall_forall in AB. destruct (AB r Hr) as [bb Eb].
     unfold buf_of. rewrite Eb in *. exact S. }
   assert (Hs : sum_rec_len (s_recs s) = sum_rec_len (s_rrecs s)) by (rewrite s_recs_rev; apply sum_rec_len_rev).
   unfold blen, msg_hdr in *. rewrite !app_length, !length_be, H4. lia.
 Qed.
+Lemma create_msg_ok_shape s o q t b :
+  Inv s -> create_msg s o q t = Ok b ->
+  b = msg_hdr o q t (16 + s_len s) ++ s_hdr s ++ List.concat (map buf_of (s_recs s)) /\
+  blen b = 16 + s_len s /\ 16 + s_len s <= 65535.
+Proof. intros H. apply create_msg_ok_shape_m. now apply Inv_InvM. Qed.
 
 (* UpdateLenInHeader changes only the header bytes *)
 Lemma updlen_keeps s :
@@ -111,19 +115,19 @@ Proof.
   - rewrite N.add_0_r. exact W.
 Qed.
 
-Theorem send_set_ok st s t n :
-  Inv s -> st_wf st ->
+Theorem send_set_ok_m st s t n :
+  InvM s -> st_wf st ->
   r_res (send_set cur st s t) = Ok n ->
   exists bytes, ok_send st s t (send_set cur st s t) n bytes.
 Proof.
   intros HI W. pose proof (seq_next_cases st s W) as SN.
-  pose proof (Inv_step s OUpdLen HI) as HI'. destruct (updlen_keeps s) as (KL & KR & KT).
+  pose proof (InvM_step s OUpdLen HI) as HI'. destruct (updlen_keeps s) as (KL & KR & KT).
   unfold send_set in *. destruct (s_type s) eqn:Ety.
   - (* template set *)
     cbn [cur fx_register with_seq with_tpls x_obs x_seq x_tpls x_udp] in *.
     destruct (create_msg (fst (step s OUpdLen)) (x_obs st) (x_seq st) t) as [bytes| | |] eqn:Ec;
       cbn [r_res]; try discriminate.
-    destruct (create_msg_ok_shape _ _ _ _ _ HI' Ec) as (Eb & Bl & Mx). rewrite KL in *.
+    destruct (create_msg_ok_shape_m _ _ _ _ _ HI' Ec) as (Eb & Bl & Mx). rewrite KL in *.
     destruct (write_ok (x_udp st) bytes); cbn [r_res]; try discriminate.
     destruct (register_all (x_tpls st) (s_recs s)) as [m o] eqn:Er.
     destruct o; cbn [r_res]; try discriminate. intros [= <-].
@@ -133,12 +137,18 @@ Proof.
     cbn [cur fx_register with_seq with_tpls x_obs x_seq x_tpls x_udp] in *.
     destruct (check_set _ _ _); cbn [r_res]; try discriminate.
     destruct (create_msg _ _ _ _) as [bytes| | |] eqn:Ec; cbn [r_res]; try discriminate.
-    destruct (create_msg_ok_shape _ _ _ _ _ HI' Ec) as (Eb & Bl & Mx). rewrite KL in *.
+    destruct (create_msg_ok_shape_m _ _ _ _ _ HI' Ec) as (Eb & Bl & Mx). rewrite KL in *.
     destruct (write_ok (x_udp st) bytes); cbn [r_res]; try discriminate. intros [= <-].
     exists bytes. split; cbn [r_wire r_st x_seq x_obs x_udp with_seq]; auto; try lia.
     eexists. rewrite Bl, <- SN. exact Eb.
   - cbn [r_res]. discriminate.
 Qed.
+
+Theorem send_set_ok st s t n :
+  Inv s -> st_wf st ->
+  r_res (send_set cur st s t) = Ok n ->
+  exists bytes, ok_send st s t (send_set cur st s t) n bytes.
+Proof. intros H. apply send_set_ok_m. now apply Inv_InvM. Qed.
 
 (* (c) a call that returns an error wrote nothing; it may have advanced the counter but never
    touches the templates *)
